@@ -215,6 +215,8 @@ class Models:
                 return ClassVal(ex.table.cls(k.cls))
             if k == K.Dyn:
                 return DynType(v)
+            if isinstance(k, K.U):
+                return ClassVal(('ext', f'opaque.type_of_{k.name}'))
         if isinstance(v, ClassVal):
             mc = v.ci.metaclass() if hasattr(v.ci, 'metaclass') else None
             return ClassVal(mc if mc is not None else ('ext', 'builtins.type'))
@@ -810,9 +812,30 @@ class SigObj(ExtObj):
 
     def __init__(self, ex, target):
         self.target = target
+        # a /repo callable whose signature the contract declares (`signatures={callee key: input name}`)
+        fv = target.func if isinstance(target, BoundMethod) else target
+        if isinstance(fv, FuncVal):
+            c = ex.contracts.current if ex.contracts else None
+            nm = (getattr(c, 'signatures', None) or {}).get(fv.fi.key)
+            if nm is None:
+                raise OutOfSubset(f'inspect.signature of {fv.fi.key}: the contract declares no signature for it')
+            self.target = SigDecl(ex.run.ghost['_input_values'][nm])
 
     def a_parameters(self, ex):
         return SigParams(self.target)
+
+
+class SigDecl(ExtObj):
+    """declared signature: a symbolic sequence of (name, parameter record)"""
+
+    def __init__(self, seq):
+        self.seq = seq
+
+    def a___sig_params__(self, ex):
+        return self.seq
+
+    def a___sig_len__(self, ex):
+        return self.ex_len(ex)
 
 
 class SigParams(ExtObj):
@@ -905,6 +928,9 @@ def isinstance_(ex, v, t):
         c = ex.run.cell(t)
         if isinstance(c, (HSet, HList)) and c.items is not None:
             return isinstance_(ex, v, tuple(c.items))
+        if isinstance(c, AbstractObj):
+            # isinstance(value, <abstract class object>): the interface decides
+            return P.abstract_call(ex, t, '__instancecheck__', [v], {})
     if isinstance(t, Sym) and t.kind == K.Cls:
         # isinstance(value, <symbolic class>): decided for the classes the contracts distinguish
         ex.run.assumed.add('A-isinstance-tag')
@@ -998,6 +1024,8 @@ def isinstance_(ex, v, t):
         if k == K.Dyn:
             return dyn_isinstance(ex, v, t)
         if isinstance(k, K.U):
+            if k.plain and not isinstance(ci, tuple):
+                return False
             return Sym(K.Bool, P.ufn(f'isinstance_{k.name}', [k.sort(), z3.StringSort()], z3.BoolSort())(v.t, z3.StringVal(str(tname or ci.key))))
     raise OutOfSubset(f'isinstance({v!r}, {t!r})')
 
